@@ -41,6 +41,9 @@ type Prop struct {
 	ThoroughRuns int
 	RaceDivisor  int // race build runs Runs/RaceDivisor cases (0: race build not used)
 	Run          func(r *R)
+	// RaceScope restricts the race oracle to reports in which at least one access is in one of
+	// these packages (prefix of the short function name, e.g. "imapclient."); empty: any go-imap code.
+	RaceScope []string
 	// Forced returns values forced onto the start of the plan tape of run idx (nil: none); it is how
 	// fault_enumeration checks enumerate (scenario, fault kind, offset) triples.
 	Forced func(tier string, idx int) []uint32
@@ -66,25 +69,94 @@ type R struct {
 	Nontrivial bool
 	SimTime    time.Duration
 	Replaying  bool
+	logs       [simrt.MaxWorkers]*taskLog
+}
+
+// taskLog is the part of R that tasks write during a run. Each worker has its own (indexed by
+// its scheduler id) so that harness bookkeeping shared between caller tasks neither shows up as
+// data races in the race-visible build nor adds happens-before edges between callers.
+type taskLog struct {
+	viol   []Violation
+	trace  []stepLine
+	probes map[string]int
+}
+
+type stepLine struct {
+	step int
+	s    string
+}
+
+func (r *R) tl() *taskLog {
+	id := simrt.CurrentID()
+	if id < 0 {
+		return nil
+	}
+	if r.logs[id] == nil {
+		r.logs[id] = &taskLog{probes: map[string]int{}}
+	}
+	return r.logs[id]
 }
 
 func (r *R) Violate(oracle, class, format string, args ...interface{}) {
-	r.viol = append(r.viol, Violation{Oracle: oracle, Class: class, Detail: fmt.Sprintf(format, args...)})
+	v := Violation{Oracle: oracle, Class: class, Detail: fmt.Sprintf(format, args...)}
+	if l := r.tl(); l != nil {
+		l.viol = append(l.viol, v)
+		return
+	}
+	r.viol = append(r.viol, v)
 }
 
 func (r *R) Tracef(format string, args ...interface{}) {
+	if l := r.tl(); l != nil {
+		if len(l.trace) < 300 {
+			l.trace = append(l.trace, stepLine{simrt.Step(), fmt.Sprintf(format, args...)})
+		}
+		return
+	}
 	if len(r.trace) < 400 {
 		r.trace = append(r.trace, fmt.Sprintf(format, args...))
 	}
 }
 
-func (r *R) Probe(name string) { r.Probes[name]++ }
+func (r *R) Probe(name string) {
+	if l := r.tl(); l != nil {
+		l.probes[name]++
+		return
+	}
+	r.Probes[name]++
+}
+
+// mergeLogs folds the per-worker logs into R after a run (trace lines in global step order).
+func (r *R) mergeLogs() {
+	var lines []stepLine
+	for i, l := range r.logs {
+		if l == nil {
+			continue
+		}
+		r.viol = append(r.viol, l.viol...)
+		lines = append(lines, l.trace...)
+		for k, v := range l.probes {
+			r.Probes[k] += v
+		}
+		r.logs[i] = nil
+	}
+	sort.SliceStable(lines, func(i, j int) bool { return lines[i].step < lines[j].step })
+	for _, l := range lines {
+		if len(r.trace) < 400 {
+			r.trace = append(r.trace, l.s)
+		}
+	}
+}
 
 // Sim runs root as the first task of a fresh bubble under the scheduler.
 func (r *R) Sim(cfg simrt.Config, root func()) simrt.Result {
 	var res simrt.Result
 	r.Net = simnet.New()
-	func() {
+	// The bubble runs in its own goroutine: when the race detector has reported something during
+	// the run, synctest.Test ends with t.FailNow (a Goexit), which must not end the worker loop.
+	bubbleDone := make(chan struct{})
+	go func() {
+		defer close(bubbleDone)
 		defer func() {
 			if v := recover(); v != nil {
 				s := fmt.Sprint(v)
@@ -97,6 +169,8 @@ func (r *R) Sim(cfg simrt.Config, root func()) simrt.Result {
 			res = simrt.Run(r.S, cfg, func(*simrt.Sim) simrt.Hook { return r.Net }, root)
 		})
 	}()
+	<-bubbleDone
+	r.mergeLogs()
 	r.Res = res
 	r.SimTime += res.SimElapsed
 	if r.S.Over {
@@ -248,6 +322,10 @@ func describeAlive(res simrt.Result) string {
 	var b strings.Builder
 	for _, w := range res.Alive {
 		fmt.Fprintf(&b, "  worker %d %q task=%v %s %s\n", w.ID, w.Name, w.Task, w.State, w.WaitOn)
+		if os.Getenv("VERIF_STACKS") != "" {
+			fmt.Fprintf(&b, "%s\n", w.Stack)
+			continue
+		}
 		n := 0
 		for _, f := range w.Funcs {
 			if strings.HasPrefix(f, "simrt.") || strings.HasPrefix(f, "runtime.") {
@@ -627,7 +705,13 @@ func simMain(t *testing.T) {
 		}
 		viol := o.viol
 		if raceBuild {
-			viol = append(viol, raceViolations(outDir, worker, raceBefore, sum)...)
+			for _, v := range raceViolations(outDir, worker, raceBefore, sum) {
+				if raceInScope(p, v) {
+					viol = append(viol, v)
+				} else {
+					sum.Probes["race_report_out_of_scope:"+v.Class]++
+				}
+			}
 		}
 		// determinism re-check: same tapes, same process, must give the same event log
 		if detEvery > 0 && (sum.Runs%detEvery == 1) && !raceBuild {
@@ -694,6 +778,20 @@ func clip(s []string, n int) []string {
 		}
 	}
 	return s
+}
+
+func raceInScope(p *Prop, v Violation) bool {
+	if len(p.RaceScope) == 0 {
+		return true
+	}
+	for _, side := range strings.Split(v.Class, " <-> ") {
+		for _, pre := range p.RaceScope {
+			if strings.HasPrefix(side, pre) {
+				return true
+			}
+		}
+	}
+	return false
 }
 
 // replayMain re-executes a replay file and reports whether the same signature recurs.
